@@ -14,7 +14,7 @@
  *   rt   <prec> <pf> <bottomup> <align> <padsamples> <ext> <w> <h> <seed>
  *        -> rt ok <checksum>  |  rt MISMATCH ...  |  rt err ...
  *           (random in-range image; save; load; compare; every sample <= 2^prec-1)
- *   cj   <maxpixels> <hex>
+ *   cj   <maxpixels> <is_targa> <hex>
  *        -> cj ok <w> <h> <comps> <sum>  |  cj err <code>
  *           (what cjpeg's main() does: select_file_type, start_input,
  *            get_pixel_rows + jpeg_write_scanlines, finish)
@@ -61,11 +61,12 @@ static const char *err_class(const char *m)
 {
   if (strstr(m, "Premature end of input")) return "EOF";
   if (strstr(m, "Nonnumeric data")) return "NONNUM";
+  if (strstr(m, "Numeric value out of range in BMP")) return "BMP_RANGE";
   if (strstr(m, "Numeric value out of range")) return "RANGE";
   if (strstr(m, "Not a PPM/PGM")) return "NOTPPM";
   if (strstr(m, "Maximum supported image dimension")) return "TOOBIG";
   if (strstr(m, "Bogus input colorspace")) return "BADCS";
-  if (strstr(m, "no data")) return "EMPTY";
+  if (strstr(m, "no data") || strstr(m, "Could not read input file")) return "EMPTY";
   if (strstr(m, "Unsupported file type")) return "UNSUPPORTED";
   if (strstr(m, "Memory allocation failure") || strstr(m, "Insufficient memory")) return "NOMEM";
   if (strstr(m, "Invalid BMP file: bad header length") || strstr(m, "bad header")) return "BMP_BADHEADER";
@@ -75,10 +76,15 @@ static const char *err_class(const char *m)
   if (strstr(m, "Empty BMP")) return "BMP_EMPTY";
   if (strstr(m, "biPlanes")) return "BMP_BADPLANES";
   if (strstr(m, "Unsupported BMP colormap")) return "BMP_BADCMAP";
-  if (strstr(m, "Numeric value out of range in BMP")) return "BMP_RANGE";
   if (strstr(m, "Image width too large") || strstr(m, "too wide")) return "WIDTH_OVERFLOW";
   if (strstr(m, "BMP")) return "BMP_OTHER";
-  return m;
+  {
+    static char clean[256];
+    size_t i;
+    for (i = 0; m[i] && i < sizeof(clean) - 1; i++) clean[i] = (m[i] == '\n' || m[i] == '\r') ? ' ' : m[i];
+    clean[i] = 0;
+    return clean;
+  }
 }
 
 /* which sample of a pixel does the loader never write? */
@@ -277,11 +283,11 @@ static void cmd_cj(char *p)
   unsigned char *volatile outbuf = NULL;
   unsigned long outsize = 0;
   long maxpixels;
-  int n = 0, c;
+  int n = 0, c, is_targa = 0;
   size_t len;
   unsigned char *bytes;
   unsigned long long sum = 0;
-  if (sscanf(p, "%ld %n", &maxpixels, &n) < 1) { printf("bad case\n"); return; }
+  if (sscanf(p, "%ld %d %n", &maxpixels, &is_targa, &n) < 2) { printf("bad case\n"); return; }
   bytes = unhex(p + n, &len);
   write_file(tmpname, bytes, len);
   free(bytes);
@@ -301,6 +307,7 @@ static void cmd_cj(char *p)
   f = fopen(tmpname, "rb");
   if ((c = getc(f)) == EOF) ERREXIT(&cinfo, JERR_INPUT_EMPTY);
   ungetc(c, f);
+  if (is_targa) c = 0x00;       /* cjpeg -targa */
   switch (c) {
   case 'B': src = jinit_read_bmp(&cinfo, TRUE); break;
   case 'G': src = jinit_read_gif(&cinfo); break;
